@@ -14,30 +14,28 @@ import (
 	"github.com/Tom-Johnston/mamba/graph/search"
 )
 
-// Protocol c03fn (property C03): function-level correspondence for isCanonical and addAugmentations on ONE graph,
-// far beyond the sizes a full search reaches (8..14 vertices).
+// Protocols c03fn / c03fnx (property C03): function-level examination of isCanonical and addAugmentations on ONE graph,
+// far beyond the sizes a full search reaches (8..14 vertices), through the hook graph/search/verif_export.go
+// (VerifStep, build tag verif): the graph is built on an iterator by AddVertex exactly as Next does, isCanonical is
+// called, then (if accepted) addAugmentations on the same state, and addAugmentations on a fresh state.
 //
-//	c03fn <nv> <mask> tab <entry> <entry>
+//	c03fn <nv> <mask>                       oracle only; both sides reply "ok"
+//	c03fnx <nv> <mask> tab <entry> <entry>   exact (state-level, strict) comparison with the Search model
 //
 // <mask> is the decimal edge mask in DenseGraph order (bit v(v-1)/2+u for u<v; a big integer for nv >= 12).
-// The implementation side (hook graph/search/verif_export.go, build tag verif) builds the graph on an iterator by
-// AddVertex exactly as Next does and calls isCanonical, then (if accepted) addAugmentations on the same state, and
-// addAugmentations on a fresh state (no cached automorphism data).  Reply:
 //
-//	acc=<0|1>;aug=<num>:<masks>|-;fresh=<num>:<masks>
+// c03fn — oracle (c03fnOracle), independent of the model, of the library's automorphism group and of the particular
+// canonical-deletion rule: Aut(g) is computed by a backtracking search over a stabiliser chain (colour refinement +
+// adjacency consistency); isCanonical, evaluated with each of several vertices of every orbit in the last position, must
+// be constant on Aut(g)-orbits and accept exactly one orbit; the sets pushed by addAugmentations must be pairwise
+// inequivalent under Aut(g), their number must be the returned count, and no orbit of neighbourhood sets without a
+// representative among them may have an extension that isCanonical accepts.
 //
-// The Lean side runs Search.isCanonical / Search.addAugmentations of the proved model; the canonical-labelling oracle
-// of the model is answered from the table after "tab" (the real library's answers for this graph, on fresh storage):
-// <vb|->:<perm|x>:<orbits>:<gens>  — comma separated numbers, generators separated by '.', "x" = early exit.
-//
-// Oracle (independent of the model and of the library's automorphism group): Aut(g) is computed by a backtracking
-// search over a stabiliser chain (colour refinement + adjacency consistency), then
-//   * isCanonical must accept exactly when the last vertex passes the degree tests (minimum degree, then maximal
-//     (sum, sum of squares) of neighbour degrees among the vertices of that degree) and lies in the Aut(g)-orbit of the
-//     canonical-deletion vertex = the first vertex in the library's canonical order that passes them;
-//   * the masks pushed by addAugmentations must be subsets of at most mindeg+1 vertices, pairwise inequivalent under
-//     Aut(g), one for EVERY Aut(g)-orbit of such subsets; the returned count must be the number pushed; the cached and
-//     the fresh call must push the same orbits.
+// c03fnx — reply  acc=<0|1>;aug=<num>:<masks>|-;fresh=<num>:<masks>.  The Lean side runs Search.isCanonical /
+// Search.addAugmentations of the proved model; the canonical-labelling oracle of the model is answered from the table
+// after "tab" (the real library's answers for this graph, on fresh storage): <vb|->:<perm|x>:<orbits>:<gens> — comma
+// separated numbers, generators separated by '.', "x" = early exit.  This compares MORE than the property fixes (which
+// orbit is accepted, which representatives are pushed, in which order): a strict stream.
 
 type c03fnOut struct {
 	accept             bool
@@ -202,7 +200,7 @@ func c03fnLine(m c03Mat) string {
 	if v, vb := c03fnViable(m); v == 2 {
 		entries = append(entries, c03fnEntry(m, true, vb))
 	}
-	return fmt.Sprintf("c03fn %d %s tab %s", nv, c03fnMask(m).String(), strings.Join(entries, " "))
+	return fmt.Sprintf("c03fnx %d %s tab %s", nv, c03fnMask(m).String(), strings.Join(entries, " "))
 }
 
 // ---- an independent automorphism group ----
@@ -375,8 +373,51 @@ func c03fnShowSet(s uint) string {
 	return "{" + strings.Join(vs, ",") + "}"
 }
 
-// c03fnOracle judges the implementation's answers for m.  Returns "" or the first violation, and tags.
-func c03fnOracle(m c03Mat, o c03fnOut) (msg string, tags []string) {
+func c03fnStep(m c03Mat) (o c03fnOut, err string) {
+	defer func() {
+		if e := recover(); e != nil {
+			err = fmt.Sprint(e)
+		}
+	}()
+	o.accept, o.numAfter, o.after, o.numFresh, o.fresh = search.VerifStep(c03fnDense(m))
+	return o, ""
+}
+
+// c03fnSwapLast: m with the labels of v and the last vertex exchanged
+func c03fnSwapLast(m c03Mat, v int) c03Mat {
+	n := len(m)
+	p := make([]int, n)
+	for i := range p {
+		p[i] = i
+	}
+	p[v], p[n-1] = n-1, v
+	return c03fnRelabel(m, p)
+}
+
+// c03fnExtend: m plus a new last vertex adjacent to the set s
+func c03fnExtend(m c03Mat, s uint) c03Mat {
+	n := len(m)
+	r := c03fnEmpty(n + 1)
+	for a := 0; a < n; a++ {
+		copy(r[a], m[a])
+	}
+	for x := s; x != 0; x &= x - 1 {
+		v := bits.TrailingZeros(x)
+		r[n][v], r[v][n] = true, true
+	}
+	return r
+}
+
+// c03fnOracle judges the implementation on m, independently of the model, of the library's automorphism group AND of the
+// particular canonical-deletion rule (which vertex orbit is "the one to delete" is not fixed by the property):
+//
+//	accept(v) := isCanonical on m relabelled so that v is the last vertex (v and the last vertex exchanged), evaluated for
+//	the last vertex, the smallest and the largest vertex of every Aut(m)-orbit;
+//	(i)  accept is constant on Aut(m)-orbits, (ii) exactly one Aut(m)-orbit is accepted;
+//	addAugmentations (right after an accepting isCanonical, and with nothing cached): count = number pushed, the pushed
+//	sets are pairwise inequivalent under Aut(m), and no orbit of neighbourhood sets that has no representative among
+//	them has an accepted extension (all such orbits of at most mindeg+1 vertices, and a sample of the larger ones).
+func c03fnOracle(m c03Mat, r *rand.Rand) (msg string, tags []string) {
 	nv := len(m)
 	g6 := m.graph6()
 	gens, ok := c03fnAut(m)
@@ -389,10 +430,22 @@ func c03fnOracle(m c03Mat, o c03fnOut) (msg string, tags []string) {
 			vuf.union(v, g[v])
 		}
 	}
+	orbitOf := func(v int) []int {
+		o := []int{}
+		for u := 0; u < nv; u++ {
+			if vuf.find(u) == vuf.find(v) {
+				o = append(o, u)
+			}
+		}
+		return o
+	}
 	norb := 0
+	eval := map[int]bool{nv - 1: true}
 	for v := 0; v < nv; v++ {
-		if vuf.find(v) == v {
+		if o := orbitOf(v); o[0] == v {
 			norb++
+			eval[o[0]] = true
+			eval[o[len(o)-1]] = true
 		}
 	}
 	if norb < nv {
@@ -401,54 +454,49 @@ func c03fnOracle(m c03Mat, o c03fnOut) (msg string, tags []string) {
 	if norb == 1 {
 		tags = append(tags, "vertex-transitive")
 	}
-	// --- isCanonical ---
-	verdict, vb := c03fnViable(m)
-	want := verdict == 1
-	why := "the degree tests decide"
-	if verdict == 2 {
+	if v, _ := c03fnViable(m); v == 2 { // informative only (the current rule): the canonical labelling decides
 		tags = append(tags, "canon-call")
-		full := c03fnCanonical(m, false, 0)
-		if full.perm == nil {
-			return fmt.Sprintf("graph %s: CanonicalIsomorphAllocated without CheckViability returned nil", g6), tags
-		}
-		w := -1
-		for _, u := range full.perm {
-			if u == nv-1 || vb>>uint(u)&1 == 1 {
-				w = u
-				break
-			}
-		}
-		want = w == nv-1 || w >= 0 && vuf.find(w) == vuf.find(nv-1)
-		why = fmt.Sprintf("the canonical-deletion vertex is %d (first of the candidates %s+{%d} in the canonical order %v); orbit of %d under Aut(g): %v", w, c03fnShowSet(vb), nv-1, full.perm, nv-1, func() []int {
-			o := []int{}
-			for v := 0; v < nv; v++ {
-				if vuf.find(v) == vuf.find(nv-1) {
-					o = append(o, v)
-				}
-			}
-			return o
-		}())
-		// the depth of the candidates in the library's orbit union-find (what a shortcut instead of Find would see)
-		for u := 0; u < nv; u++ {
-			d := 0
-			for x := u; x >= 0 && x < len(full.orbits) && full.orbits[x] >= 0 && d <= nv; x = full.orbits[x] {
-				d++
-			}
-			if d >= 2 {
-				tags = append(tags, "uf-depth2")
-				break
-			}
-		}
-	} else {
-		tags = append(tags, "deg-decided")
 	}
-	if want {
+	// --- isCanonical ---
+	accept := map[int]bool{}
+	var last c03fnOut
+	vs := []int{}
+	for v := range eval {
+		vs = append(vs, v)
+	}
+	sort.Ints(vs)
+	for _, v := range vs {
+		o, err := c03fnStep(c03fnSwapLast(m, v))
+		if err != "" {
+			return fmt.Sprintf("graph %s relabelled so that vertex %d is the last one: isCanonical/addAugmentations panicked: %s", g6, v, err), tags
+		}
+		accept[v] = o.accept
+		if v == nv-1 {
+			last = o
+		}
+	}
+	if last.accept {
 		tags = append(tags, "accept")
 	} else {
 		tags = append(tags, "reject")
 	}
-	if o.accept != want {
-		return fmt.Sprintf("graph %s (%d vertices, last vertex = the one just added): isCanonical returns %v but canonical deletion says %v: %s", g6, nv, o.accept, want, why), tags
+	accOrbits := [][]int{}
+	for _, v := range vs {
+		o := orbitOf(v)
+		if o[0] != v {
+			continue
+		}
+		for _, u := range o {
+			if a, seen := accept[u]; seen && a != accept[v] {
+				return fmt.Sprintf("graph %s (%d vertices): isCanonical is not invariant under Aut(g): with vertex %d last it returns %v, with vertex %d last it returns %v, although %d and %d are in the same orbit %v (a class is lost or generated twice)", g6, nv, v, accept[v], u, a, v, u, o), tags
+			}
+		}
+		if accept[v] {
+			accOrbits = append(accOrbits, o)
+		}
+	}
+	if len(accOrbits) != 1 {
+		return fmt.Sprintf("graph %s (%d vertices): isCanonical accepts the deletion of %d vertex orbits of Aut(g) %v; exactly one orbit must be accepted (none: the class of this graph is never generated; several: it is generated more than once)", g6, nv, len(accOrbits), accOrbits), tags
 	}
 	// --- addAugmentations ---
 	deg := c03fnDegs(m)
@@ -460,20 +508,24 @@ func c03fnOracle(m c03Mat, o c03fnOut) (msg string, tags []string) {
 	}
 	size := 1 << uint(nv)
 	suf := c03fnNewUF(size)
-	adm := func(s uint) bool { return bits.OnesCount(s) <= minDeg+1 }
 	for s := 0; s < size; s++ {
-		if !adm(uint(s)) {
-			continue
-		}
 		for _, g := range gens {
 			suf.union(s, int(c03fnImage(g, uint(s))))
 		}
 	}
-	norbits := 0
-	for s := 0; s < size; s++ {
-		if adm(uint(s)) && suf.find(s) == s {
-			norbits++
+	childAccepted := map[int]int{} // orbit root -> 0 unknown, 1 rejected, 2 accepted
+	childOK := func(root int) (bool, string) {
+		if childAccepted[root] == 0 {
+			o, err := c03fnStep(c03fnExtend(m, uint(root)))
+			if err != "" {
+				return false, err
+			}
+			childAccepted[root] = 1
+			if o.accept {
+				childAccepted[root] = 2
+			}
 		}
+		return childAccepted[root] == 2, ""
 	}
 	check := func(what string, num int, masks []uint) string {
 		if num != len(masks) {
@@ -481,32 +533,63 @@ func c03fnOracle(m c03Mat, o c03fnOut) (msg string, tags []string) {
 		}
 		seen := map[int]uint{}
 		for _, s := range masks {
-			if s >= uint(size) || !adm(s) {
-				return fmt.Sprintf("graph %s: addAugmentations (%s) pushed the neighbourhood %s, not a set of at most mindeg+1 = %d of the %d vertices", g6, what, c03fnShowSet(s), minDeg+1, nv)
+			if s >= uint(size) {
+				return fmt.Sprintf("graph %s: addAugmentations (%s) pushed the neighbourhood %s, not a set of the %d vertices", g6, what, c03fnShowSet(s), nv)
 			}
-			r := suf.find(int(s))
-			if t, dup := seen[r]; dup {
+			rt := suf.find(int(s))
+			if t, dup := seen[rt]; dup {
 				return fmt.Sprintf("graph %s: addAugmentations (%s) pushed %s and %s, which are equivalent under Aut(g) (the same graph would be generated twice)", g6, what, c03fnShowSet(t), c03fnShowSet(s))
 			}
-			seen[r] = s
+			seen[rt] = s
 		}
-		if len(seen) != norbits {
-			for s := 0; s < size; s++ {
-				if adm(uint(s)) && suf.find(s) == s {
-					if _, ok := seen[s]; !ok {
-						return fmt.Sprintf("graph %s: addAugmentations (%s) pushed %d choices but Aut(g) has %d orbits of sets of at most %d vertices; no representative of the orbit of %s (its extensions are never generated)", g6, what, len(masks), norbits, minDeg+1, c03fnShowSet(uint(s)))
-					}
-				}
+		// orbits without a representative: none of them may have an accepted extension
+		small, large := []int{}, []int{}
+		for s := 0; s < size; s++ {
+			if suf.find(s) != s {
+				continue
+			}
+			if _, ok := seen[s]; ok {
+				continue
+			}
+			if bits.OnesCount(uint(s)) <= minDeg+1 {
+				small = append(small, s)
+			} else {
+				large = append(large, s)
+			}
+		}
+		if len(small) > 60 {
+			small = small[:60]
+		}
+		sort.Slice(large, func(a, b int) bool {
+			if pa, pb := bits.OnesCount(uint(large[a])), bits.OnesCount(uint(large[b])); pa != pb {
+				return pa < pb
+			}
+			return large[a] < large[b]
+		})
+		pick := small
+		for k := 0; k < 3 && k < len(large); k++ {
+			pick = append(pick, large[k])
+		}
+		for k := 0; k < 3 && len(large) > 3; k++ {
+			pick = append(pick, large[3+r.Intn(len(large)-3)])
+		}
+		for _, s := range pick {
+			acc, err := childOK(s)
+			if err != "" {
+				return fmt.Sprintf("graph %s plus a vertex joined to %s: isCanonical/addAugmentations panicked: %s", g6, c03fnShowSet(uint(s)), err)
+			}
+			if acc {
+				return fmt.Sprintf("graph %s: addAugmentations (%s) pushed %d choices, none of them in the Aut(g)-orbit of %s, but isCanonical accepts the graph obtained by adding a vertex joined to %s: that class is never generated", g6, what, len(masks), c03fnShowSet(uint(s)), c03fnShowSet(uint(s)))
 			}
 		}
 		return ""
 	}
-	if o.accept {
-		if e := check("right after isCanonical", o.numAfter, o.after); e != "" {
+	if last.accept {
+		if e := check("right after isCanonical", last.numAfter, last.after); e != "" {
 			return e, tags
 		}
 	}
-	if e := check("no cached automorphisms", o.numFresh, o.fresh); e != "" {
+	if e := check("no cached automorphisms", last.numFresh, last.fresh); e != "" {
 		return e, tags
 	}
 	return "", tags
@@ -897,7 +980,7 @@ func c03fnSym(r *rand.Rand, k int) c03Mat {
 
 func init() {
 	register(&Proto{
-		Name:    "c03fn",
+		Name:    "c03fnx",
 		Props:   []string{"C03"},
 		Timeout: 120 * time.Second,
 		Run: func(args []string) Result {
@@ -909,32 +992,52 @@ func init() {
 			if !ok || nv < 2 || nv > 14 {
 				return Result{Out: "bad-op"}
 			}
-			var o c03fnOut
-			out := guard(func() string {
-				o.accept, o.numAfter, o.after, o.numFresh, o.fresh = search.VerifStep(c03fnDense(m))
-				acc, after := "0", "-"
-				if o.accept {
-					acc, after = "1", c03fnShowMasks(o.numAfter, o.after)
-				}
-				return fmt.Sprintf("acc=%s;aug=%s;fresh=%s", acc, after, c03fnShowMasks(o.numFresh, o.fresh))
-			})
-			tags := []string{fmt.Sprintf("fn-n%d", nv)}
-			if out == "panic" {
-				return Result{Out: out, Oracle: fmt.Sprintf("graph %s: isCanonical/addAugmentations panicked", m.graph6()), Tags: tags}
+			tags := []string{fmt.Sprintf("fnx-n%d", nv)}
+			o, err := c03fnStep(m)
+			if err != "" {
+				return Result{Out: "panic", Oracle: fmt.Sprintf("graph %s: isCanonical/addAugmentations panicked: %s", m.graph6(), err), Tags: tags}
 			}
-			msg, t := c03fnOracle(m, o)
-			tags = append(tags, t...)
-			if "c03fn "+strings.Join(args, " ") != c03fnLine(m) {
+			acc, after := "0", "-"
+			if o.accept {
+				acc, after = "1", c03fnShowMasks(o.numAfter, o.after)
+			}
+			if "c03fnx "+strings.Join(args, " ") != c03fnLine(m) {
 				tags = append(tags, "stale-request")
 			}
 			if nv >= 8 {
+				tags = append(tags, "nontrivial")
+			}
+			return Result{Out: fmt.Sprintf("acc=%s;aug=%s;fresh=%s", acc, after, c03fnShowMasks(o.numFresh, o.fresh)), Tags: tags}
+		},
+		Gen: func(r *rand.Rand, tier string, emit func(string)) {}, // the lines are emitted by c03fn's generator, graph by graph
+	})
+	register(&Proto{
+		Name:    "c03fn",
+		Props:   []string{"C03"},
+		Timeout: 120 * time.Second,
+		Run: func(args []string) Result {
+			if len(args) != 2 {
+				return Result{Out: "bad-op"}
+			}
+			nv := atoi(args[0])
+			m, ok := c03fnFromMask(nv, args[1])
+			if !ok || nv < 2 || nv > 14 {
+				return Result{Out: "bad-op"}
+			}
+			h := int64(nv)
+			for _, c := range args[1] {
+				h = h*131 + int64(c)
+			}
+			msg, t := c03fnOracle(m, rand.New(rand.NewSource(h)))
+			tags := append([]string{fmt.Sprintf("fn-n%d", nv)}, t...)
+			if nv >= 8 {
 				for _, x := range t {
-					if x == "canon-call" {
+					if x == "orbits-nontrivial" {
 						tags = append(tags, "nontrivial")
 					}
 				}
 			}
-			return Result{Out: out, Oracle: msg, Tags: tags}
+			return Result{Out: "ok", Oracle: msg, Tags: tags}
 		},
 		Gen: func(r *rand.Rand, tier string, emit func(string)) {
 			seen := map[string]bool{}
@@ -953,13 +1056,14 @@ func init() {
 					adm += c
 					c = c * (len(m) - k) / (k + 1)
 				}
-				if adm > limit {
+				l := fmt.Sprintf("c03fn %d %s", len(m), c03fnMask(m).String())
+				if seen[l] {
 					return
 				}
-				l := c03fnLine(m)
-				if !seen[l] {
-					seen[l] = true
-					emit(l)
+				seen[l] = true
+				emit(l)
+				if adm <= limit {
+					emit(c03fnLine(m))
 				}
 			}
 			for _, m := range c03fnWitness() {
